@@ -154,6 +154,9 @@ pub enum Kind {
     GateBody,
     /// like Gate, but the request announces `Expect: 100-continue` and sends a small body at once
     GateExpect,
+    /// like Gate, but the request carries `Connection: upgrade` / `Upgrade: h2c` (what `curl --http2`
+    /// sends to a cleartext server); the endpoint is an ordinary one
+    GateUpgrade,
     /// like GateBody, but the 20 kB body arrives in two writes 30 ms apart (the handler has started
     /// by then): hyper stops reading a body nobody consumes, so part of it is still unread
     GateBodySplit,
@@ -232,7 +235,7 @@ impl WorldCfg {
         WorldCfg {
             mode: if v["mode"] == json!("Detached") { HandlerTaskMode::Detached } else { HandlerTaskMode::CancelOnDisconnect },
             rt: if v["runtime"].as_str().unwrap_or("").starts_with("Current") { RtKind::CurrentThread } else { RtKind::MultiThread(2) },
-            kinds: v["clients"].as_array().unwrap().iter().map(|k| match k.as_str().unwrap() { "Panic" => Kind::Panic, "Big" => Kind::Big, "GateDrop" => Kind::GateDrop, "GateBody" => Kind::GateBody, "GateExpect" => Kind::GateExpect, "GateBodySplit" => Kind::GateBodySplit, _ => Kind::Gate }).collect(),
+            kinds: v["clients"].as_array().unwrap().iter().map(|k| match k.as_str().unwrap() { "Panic" => Kind::Panic, "Big" => Kind::Big, "GateDrop" => Kind::GateDrop, "GateBody" => Kind::GateBody, "GateExpect" => Kind::GateExpect, "GateBodySplit" => Kind::GateBodySplit, "GateUpgrade" => Kind::GateUpgrade, _ => Kind::Gate }).collect(),
             with_shutdown: v["with_shutdown"].as_bool().unwrap_or(false),
             with_half: v["with_half"].as_bool().unwrap_or(true),
         }
@@ -332,6 +335,9 @@ fn req_bytes(kind: Kind, id: &str) -> Vec<u8> {
             let mut v = format!("PUT /gatep/{id} HTTP/1.1\r\nhost: h\r\nx-marker: {id}\r\ncontent-length: 20000\r\n\r\n").into_bytes();
             v.extend(std::iter::repeat(b'b').take(20000));
             return v;
+        }
+        Kind::GateUpgrade => {
+            return format!("GET /gate/{id} HTTP/1.1\r\nhost: h\r\nx-marker: {id}\r\nconnection: Upgrade, HTTP2-Settings\r\nupgrade: h2c\r\nhttp2-settings: AAMAAABkAAQCAAAAAAIAAAAA\r\n\r\n").into_bytes();
         }
         Kind::GateExpect => {
             return format!("PUT /gatep/{id} HTTP/1.1\r\nhost: h\r\nx-marker: {id}\r\nexpect: 100-continue\r\ncontent-length: 11\r\n\r\nhello world").into_bytes();
@@ -542,7 +548,7 @@ pub fn run_history(cfg: &WorldCfg, events: &[Ev], shutdown_window: Duration) -> 
                         o => json!(format!("{o:?}")),
                     };
                     match kind {
-                        Kind::Gate | Kind::GateDrop | Kind::GateBody | Kind::GateExpect | Kind::GateBodySplit => {
+                        Kind::Gate | Kind::GateDrop | Kind::GateBody | Kind::GateExpect | Kind::GateBodySplit | Kind::GateUpgrade => {
                             let ok = matches!(&r, ReadOutcome::Resp(r) if r.status == 200 && r.json().map(|j| j["id"] == json!(ids[i])).unwrap_or(false)
                                 && r.header_str("x-request-id") == r.json().and_then(|j| j["request_id"].as_str().map(|s| s.to_string())));
                             if !ok {
